@@ -2,6 +2,7 @@ package main
 
 import (
 	"fmt"
+	"go/constant"
 	"go/token"
 	"go/types"
 	"strings"
@@ -79,6 +80,17 @@ func (fe *FuncEnc) callCommon(v ssa.Value, c *ssa.CallCommon, st *State, args []
 				fe.callClosure(v, callee, bind, st, args, pos)
 				return
 			}
+			// a closure held in a local variable (e.g. a recursive func literal)
+			if fn2 := fe.resolveClosureCell(c.Value); fn2 != nil {
+				if ct := fe.eng.contractFor(fn2); ct != nil {
+					var names []string
+					for _, p := range fn2.Params {
+						names = append(names, p.Name())
+					}
+					fe.applyContract(v, ct, fn2.Signature, names, args, st, pos, hint, fn2)
+					return
+				}
+			}
 			calleeName = "dynamic call"
 		} else {
 			if mc, ok := c.Value.(*ssa.MakeClosure); ok {
@@ -108,6 +120,20 @@ func (fe *FuncEnc) callCommon(v ssa.Value, c *ssa.CallCommon, st *State, args []
 			}
 		}
 	}
+	if fe.sc.taint && callee != nil {
+		if fe.taintIntrinsic(v, c, callee, st, sig, hint) {
+			return
+		}
+	}
+	if fe.sc.taint && c.IsInvoke() && contract == nil && c.Method.Name() == "Error" && sig.Params().Len() == 0 {
+		// error messages produced by conversions and called functions are assumed to
+		// contain no value content (A5); the heap is not written
+		res := fe.freshResults(st, sig, hint)
+		fe.setResults(v, sig, res)
+		fe.assume(st, "(sf_clean "+res[0]+")")
+		fe.usedAssumed["error.Error() (A5: error messages carry no value content)"] = true
+		return
+	}
 	if contract == nil {
 		if callee != nil && fe.eng.isPureExternal(callee) {
 			res := fe.freshResults(st, sig, hint)
@@ -133,6 +159,50 @@ func (fe *FuncEnc) callCommon(v ssa.Value, c *ssa.CallCommon, st *State, args []
 		fe.usedAssumed[contract.FullName()] = true
 	}
 	fe.applyContract(v, contract, sig, paramNames, args, st, pos, hint, callee)
+}
+
+// resolveClosureCell: the called value is loaded from a local variable (or from the
+// captured variable of the enclosing function) that is assigned exactly one func literal.
+func (fe *FuncEnc) resolveClosureCell(v ssa.Value) *ssa.Function {
+	ld, ok := v.(*ssa.UnOp)
+	if !ok || ld.Op != token.MUL {
+		return nil
+	}
+	find := func(a *ssa.Alloc) *ssa.Function {
+		var found *ssa.Function
+		n := 0
+		if refs := a.Referrers(); refs != nil {
+			for _, r := range *refs {
+				if stv, ok := r.(*ssa.Store); ok && stv.Addr == ssa.Value(a) {
+					n++
+					if mc, ok := stv.Val.(*ssa.MakeClosure); ok {
+						found, _ = mc.Fn.(*ssa.Function)
+					}
+				}
+			}
+		}
+		if n == 1 {
+			return found
+		}
+		return nil
+	}
+	switch x := ld.X.(type) {
+	case *ssa.Alloc:
+		return find(x)
+	case *ssa.FreeVar:
+		parent := fe.fn.Parent()
+		if parent == nil {
+			return nil
+		}
+		for _, b := range parent.Blocks {
+			for _, ins := range b.Instrs {
+				if a, ok := ins.(*ssa.Alloc); ok && a.Comment == x.Name() {
+					return find(a)
+				}
+			}
+		}
+	}
+	return nil
 }
 
 func typeLabelNoPkg(t types.Type) string {
@@ -407,6 +477,7 @@ func (fe *FuncEnc) builtin(v ssa.Value, b *ssa.Builtin, c *ssa.CallCommon, st *S
 			has := fe.mapHasArr(st, t, args[0])
 			// len == 0 iff no key present
 			fe.assume(st, fmt.Sprintf("(=> (= %s 0) (forall ((k %s)) (! (not (select %s k)) :pattern ((select %s k)))))", r, ks, has, has))
+			fe.assume(st, fmt.Sprintf("(or (= %s 0) (exists ((k %s)) (select %s k)))", r, ks, has))
 			fe.assume(st, fmt.Sprintf("(=> (= %s 0) (= %s 0))", args[0], r))
 		case *types.Array:
 			fe.setVal(v, fmt.Sprint(t.Len()))
@@ -547,4 +618,173 @@ func (fe *FuncEnc) appendOp(v ssa.Value, c *ssa.CallCommon, st *State, args []st
 			fe.sc.assertFor(nv, fmt.Sprintf("(forall ((j Int)) (! (=> (and (<= 0 j) (< j %s)) (= (select %s %s) (select %s %s))) :pattern ((select %s %s))))", tlen, nv, resCell("(+ (hv_len "+s+") j)"), old, tCell("j"), nv, resCell("(+ (hv_len "+s+") j)")))
 		}
 	}
+}
+
+// taintIntrinsic models the string-producing functions the diagnostic-content
+// rule (unit U18) needs: the result is clean (contains no value content) when
+// every formatted argument is. Arguments: strings by their clean() fact;
+// integers, booleans, errors (A5) and values of repository types (token types,
+// ranges, ...) and cty types are clean; anything else - in particular cty.Value,
+// *big.Float, byte slices - is not.
+func (fe *FuncEnc) taintIntrinsic(v ssa.Value, c *ssa.CallCommon, callee *ssa.Function, st *State, sig *types.Signature, hint string) bool {
+	name := fnFullName(callee)
+	var fmtArgs []ssa.Value
+	switch name {
+	case "fmt.Sprintf", "fmt.Errorf":
+		if len(c.Args) < 2 {
+			return false
+		}
+		fmtArgs = append([]ssa.Value{c.Args[0]}, varargElems(c.Args[1])...)
+		if fmtArgs == nil {
+			return false
+		}
+	case "fmt.Sprint":
+		fmtArgs = varargElems(c.Args[0])
+	case "strconv.Itoa", "strconv.FormatInt":
+		fmtArgs = nil
+	case "strconv.Quote":
+		fmtArgs = []ssa.Value{c.Args[0]}
+	case "github.com/zclconf/go-cty/cty.(Value).AsString":
+		// the content of a value may be shown only if the value is known to carry no marks
+		fe.eng.sorts.extra(fmt.Sprintf("(declare-fun sf_plain (%s) Bool)", fe.sorts().sortOf(c.Args[0].Type())))
+		res := fe.freshResults(st, sig, hint)
+		fe.setResults(v, sig, res)
+		fe.assume(st, implies("(sf_plain "+fe.val(c.Args[0])+")", "(sf_clean "+res[0]+")"))
+		fe.usedAssumed[name+" (taint rule: clean only for a value known to be unmarked)"] = true
+		return true
+	default:
+		if !fe.eng.cleanResult[name] {
+			return false
+		}
+	}
+	// with a constant format string, %T arguments only contribute a type name
+	typeOnly := map[int]bool{}
+	if name == "fmt.Sprintf" || name == "fmt.Errorf" {
+		if cst, ok := c.Args[0].(*ssa.Const); ok && cst.Value != nil && cst.Value.Kind() == constant.String {
+			f := constant.StringVal(cst.Value)
+			argi := 0
+			for i := 0; i < len(f); i++ {
+				if f[i] != '%' {
+					continue
+				}
+				i++
+				for i < len(f) && strings.ContainsRune("+-# 0123456789.[]", rune(f[i])) {
+					i++
+				}
+				if i >= len(f) {
+					break
+				}
+				if f[i] == '%' {
+					continue
+				}
+				argi++
+				if f[i] == 'T' {
+					typeOnly[argi] = true
+				}
+			}
+		}
+	}
+	var conds []string
+	for i, a := range fmtArgs {
+		if typeOnly[i] {
+			continue
+		}
+		if a == nil {
+			conds = append(conds, "false")
+			continue
+		}
+		conds = append(conds, fe.cleanArg(a))
+	}
+	res := fe.freshResults(st, sig, hint)
+	fe.setResults(v, sig, res)
+	if len(res) > 0 && fe.sorts().sortOf(sig.Results().At(0).Type()) == sStr {
+		fe.assume(st, implies(and(conds...), "(sf_clean "+res[0]+")"))
+	}
+	fe.usedAssumed[name+" (taint rule: result is clean when its arguments are)"] = true
+	return true
+}
+
+// cleanArg: condition under which a formatted argument contributes no value content.
+func (fe *FuncEnc) cleanArg(a ssa.Value) string {
+	for {
+		if mi, ok := a.(*ssa.MakeInterface); ok {
+			a = mi.X
+			continue
+		}
+		if ci, ok := a.(*ssa.ChangeInterface); ok {
+			a = ci.X
+			continue
+		}
+		break
+	}
+	t := a.Type()
+	switch u := t.Underlying().(type) {
+	case *types.Basic:
+		if u.Info()&types.IsString != 0 {
+			return "(sf_clean " + fe.val(a) + ")"
+		}
+		return "true"
+	case *types.Interface:
+		if types.Identical(t, types.Universe.Lookup("error").Type()) {
+			return "true" // A5
+		}
+		return "false"
+	}
+	if n, ok := t.(*types.Named); ok && n.Obj().Pkg() != nil {
+		p := n.Obj().Pkg().Path()
+		if strings.HasPrefix(p, repoModule) {
+			return "true"
+		}
+		if p == "github.com/zclconf/go-cty/cty" && (n.Obj().Name() == "Type" || n.Obj().Name() == "Path") {
+			return "true"
+		}
+	}
+	if pt, ok := t.Underlying().(*types.Pointer); ok {
+		if n, ok := pt.Elem().(*types.Named); ok && n.Obj().Pkg() != nil && strings.HasPrefix(n.Obj().Pkg().Path(), repoModule) {
+			return "true"
+		}
+	}
+	return "false"
+}
+
+// varargElems returns the values stored into the array behind a variadic
+// argument slice (nil entries for elements that cannot be found).
+func varargElems(sl ssa.Value) []ssa.Value {
+	s, ok := sl.(*ssa.Slice)
+	if !ok {
+		if c, isC := sl.(*ssa.Const); isC && c.Value == nil {
+			return []ssa.Value{}
+		}
+		return []ssa.Value{nil}
+	}
+	al, ok := s.X.(*ssa.Alloc)
+	if !ok {
+		return []ssa.Value{nil}
+	}
+	at, ok := al.Type().Underlying().(*types.Pointer).Elem().Underlying().(*types.Array)
+	if !ok {
+		return []ssa.Value{nil}
+	}
+	out := make([]ssa.Value, at.Len())
+	if refs := al.Referrers(); refs != nil {
+		for _, r := range *refs {
+			ia, ok := r.(*ssa.IndexAddr)
+			if !ok {
+				continue
+			}
+			ci, ok := ia.Index.(*ssa.Const)
+			if !ok {
+				continue
+			}
+			idx := int(ci.Int64())
+			if irefs := ia.Referrers(); irefs != nil {
+				for _, ir := range *irefs {
+					if stv, ok := ir.(*ssa.Store); ok && stv.Addr == ssa.Value(ia) && idx < len(out) {
+						out[idx] = stv.Val
+					}
+				}
+			}
+		}
+	}
+	return out
 }
